@@ -763,6 +763,23 @@ func c01(ctx *Ctx) (*Outcome, error) {
 		xc := crossPackageCase(i)
 		cases = append(cases, &c01Case{root: xc.Root, args: xc.Args, tag: "clean", sc: xc})
 	}
+	// enumerated: names led by every character class (C14's pool) as properties, definitions and titles
+	for lo := 0; lo < len(c14NamesClean); lo += 8 {
+		hi := lo + 8
+		if hi > len(c14NamesClean) {
+			hi = len(c14NamesClean)
+		}
+		root := &sg.Schema{Types: []string{"object"}}
+		for k, n := range c14NamesClean[lo:hi] {
+			d := &sg.Schema{Types: []string{"object"}, Title: n, Props: []sg.Prop{{Name: n, S: &sg.Schema{Types: []string{"integer"}, Min: sg.Fp(1)}}}, Required: []string{n}}
+			root.Defs = append(root.Defs, sg.Prop{Name: n, S: d})
+			root.Props = append(root.Props, sg.Prop{Name: n, S: &sg.Schema{Types: []string{"string"}, MinLen: 1}})
+			_ = k // (the definitions are generated by the definitions pass; no reference spells these names)
+		}
+		for _, args := range [][]string{nil, {"--struct-name-from-title"}, {"--capitalization", "ID,URL"}} {
+			cases = append(cases, &c01Case{root: root, args: args, tag: "clean"})
+		}
+	}
 	// the semantic checks' strata (single- and multi-file invocations with the options they come with)
 	for _, sc := range strataForC01(ctx) {
 		cases = append(cases, &c01Case{root: sc.Root, args: sc.Args, tag: "clean", sc: sc})
